@@ -26,7 +26,9 @@ pub fn catalogue() -> Vec<(String, String)> {
     add("only-abicoder-pragma", format!("pragma abicoder v2;\n{}", body));
     add("solidity-pragma-not-first", format!("pragma abicoder v2;\npragma experimental SMTChecker;\npragma solidity 0.8.17;\n{}", body));
     add("pragma-after-contract", format!("{}\npragma solidity 0.8.17;\n", body));
-    for ver in ["0.8", "8", "^0", "0.8.4294967296", "0.8.123456789012", "99999999999.0.0", ">=0.4.22 <0.9.0", "*", "0.8.x", "^0.8.0 || ^0.7.0", "v0.8.1", "0.8.1-alpha", " 0.8.17 ", "0.08.017", "赤"] {
+    for ver in ["0.8", "8", "^0", "0.8.4294967296", "0.8.123456789012", "99999999999.0.0", ">=0.4.22 <0.9.0", "*", "0.8.x", "^0.8.0 || ^0.7.0", "v0.8.1", "0.8.1-alpha", " 0.8.17 ", "0.08.017", "赤",
+        "0.8.4 /* pinned", "/* x", "0.8.4 // see the notes", "*/ 0.8.0", "0.8.4 /*/", "/**/ ^0.8.0 /* a */ /* b", "0.7.6 /* a */ /* ^0.8.0", "// only a comment", "/* */", "0.8.4 */ /*", "^", "||", ">=", "0.8.4 /* é 合约",
+    ] {
         add(&format!("pragma-version:{}", ver), format!("pragma solidity {};\n{}", ver, body));
     }
     add("free-functions", "pragma solidity 0.8.17;\nfunction free(uint256 a) pure returns (uint256) { return a * 2; }\nfunction _other(uint256 b) pure returns (uint256) { return b / 8; }\ncontract C { constructor() {} }".to_string());
